@@ -1300,3 +1300,11 @@ impl<RW: QueueRW<T>, T> Stream for &FutInnerRecv<RW, T> {""")]),
         FutInnerRecv {
             reader: InnerRecv::add_stream(&self.reader),""")], kind='refactor'),
 ]
+
+# behaviour-preserving patches written by independent sub-agents (tools/eval_refactors.sh, DESIGN 12.9): every check
+# must stay silent on each of them
+import glob as _glob
+import os as _os
+for _f in sorted(_glob.glob(_os.path.join(_os.path.dirname(_os.path.dirname(_os.path.abspath(__file__))), 'refactors', '*.diff'))):
+    VARIANTS.append({'id': 'rfp-' + _os.path.basename(_f)[:-5], 'property': None, 'expect': [], 'edits': [], 'patch': _f,
+                     'kind': 'refactor', 'note': 'sub-agent refactor'})
